@@ -70,7 +70,7 @@ def oracle(cfg, trace, residue):
         if len(evs) > 1:
             fails.append((None, 'more than one handler invocation for one event: %r' % (evs,)))
         if isinstance(p['data'], list) and p['data'] and isinstance(p['data'][0], str) and \
-                p['data'][0] not in ('connect', 'disconnect', '*'):
+                p['data'][0] not in ('connect', 'disconnect'):
             tgt = S.event_target(cfg, p['ns'], p['data'][0])
             if tgt in ('fn', 'cls') and not evs and not im['raised']:
                 fails.append((None, 'with async_handlers disabled the event was not handled before the next message '
@@ -80,7 +80,8 @@ def oracle(cfg, trace, residue):
         for slot, args in evs:
             # sid followed by the event's arguments (possibly prefixed by event name / namespace)
             tail = list(p['data'][1:])
-            if sid not in args[:3] or not C.same(list(args[len(args) - len(tail):]) if tail else [], tail):
+            pos = S.sid_position(slot)
+            if len(args) <= pos or args[pos] != sid or not C.same(list(args[pos + 1:]), tail):
                 fails.append((None, 'handler arguments are not sid + event arguments: %r for %r' % (args, p['data'])))
         acks = []
         for tid, frames in im['sends'].items():
